@@ -14,14 +14,67 @@ RULE = ("seeded workloads with N=max_connections in {1,2,3,5}, 2N..4N callers ov
         "evicted constantly), all caller/server behaviours, faults, cancellations, HTTP/1.1 / TLS / HTTP/2, direct and "
         "proxied; after EVERY ledger event: len(pool.connections) <= N; each pooled connection owns <= 1 open stream; "
         "open streams never yet owned (establishing) fit into pooled connections that own none; only streams of "
-        "already-evicted connections are excused; distinct+non-trivial = new interleaving fingerprint in which the "
+        "already-evicted connections are excused; plus the synchronous pool shared by 3-4 real threads under the controlled "
+        "scheduler with line-level pre-emption (HTTP/1.1, N in {1,2}, N+2 origins); distinct+non-trivial = new interleaving fingerprint in which the "
         "pool reached its limit")
 ASSUMPTIONS = ["ownership = gc reachability from pool.connections; an open stream that was once owned and is no longer "
                "reachable belongs to an evicted connection being closed (its eventual close is C06's concern)"]
 REQUIRED = ["workloads", "oracle_evaluations", "oracle_full_evaluations", "limit_reached", "evictions_excused"]
 
 
+def run_threads(case):
+    """The same limit oracle with the synchronous pool shared by real threads under the controlled scheduler
+    (line-level pre-emption, as C08): the assignment passes of different threads must not overlap."""
+    from ..world import run_threaded, run_sync
+    viol = []
+    cnt = {"workloads": 0, "oracle_evaluations": 0, "oracle_full_evaluations": 0, "limit_reached": 0,
+           "evictions_excused": 0, "transports": 0, "oracle_evicted_closed": 0, "max_open_over_limit_excused": 0, "requests": 0,
+           "thread_schedules": 0, "context_switches": 0}
+    sigs = set()
+    for spec in case["specs"]:
+        for sched in case["scheds"]:
+            box = {}
+
+            def setup(s):
+                wl = Workload(spec)
+                wl.net.log_events = False
+                ob = LimitObserver(wl)
+                wl.net.observers.append(ob)
+                box.update(wl=wl, ob=ob)
+                return {f"t{c}": (lambda c=c: run_sync(wl.caller(c))) for c in range(spec["n_callers"])}
+
+            s, outs, shim = run_threaded(setup, seed=sched["seed"] ^ spec["seed"], strategy=sched["strategy"],
+                                         p=sched.get("p", 0.1), depth=sched.get("depth", 2), lines=True, est_steps=3000)
+            wl, ob = box["wl"], box["ob"]
+            if not s.wall_ok:
+                return {"viol": viol, "counters": cnt, "sigs": sorted(sigs), "sample": None,
+                        "inconclusive": "thread run exceeded its wall-clock limit"}
+            cnt["workloads"] += 1
+            cnt["thread_schedules"] += 1
+            cnt["context_switches"] += s.switches
+            cnt["requests"] += len(wl.records)
+            cnt["oracle_evaluations"] += ob.evals
+            cnt["oracle_full_evaluations"] += ob.full_evals
+            cnt["transports"] += len(wl.net.transports)
+            if ob.max_conns >= ob.N:
+                cnt["limit_reached"] += 1
+                import hashlib
+                sigs.add("thr:" + hashlib.sha1(bytes(s.trace[:4000])).hexdigest()[:16])
+            cnt["evictions_excused"] += ob.max_excused
+            for key, det in ob.viol:
+                if not any(x["key"] == "threads:" + key for x in viol):
+                    viol.append({"key": "threads:" + key, "what": f"{key}: {det}",
+                                 "detail": {"spec": spec, "schedule": sched, "detail": det}})
+            try:
+                wl.pool.close()
+            except Exception:  # noqa
+                pass
+    return {"viol": viol, "counters": cnt, "sigs": sorted(sigs), "sample": None}
+
+
 def run_case(case):
+    if case.get("threads"):
+        return run_threads(case)
     viol = []
     cnt = {"workloads": 0, "oracle_evaluations": 0, "oracle_full_evaluations": 0, "limit_reached": 0,
            "evictions_excused": 0, "transports": 0, "oracle_evicted_closed": 0, "max_open_over_limit_excused": 0, "requests": 0}
@@ -82,4 +135,25 @@ def plan(tier, seed):
             specs.append(gen_spec(r, flavor, max_connections=n, n_origins=n + 2, n_callers=r.randint(2 * n, 4 * n),
                                   reqs=r.randint(2, 4)))
         cases.append({"flavor": flavor, "specs": specs, "seed": r.randrange(1 << 30)})
+    # the synchronous pool under threads
+    n_thr, n_specs, n_scheds = (16, 4, 6) if tier == "quick" else (160, 8, 12)
+    for i in range(n_thr):
+        specs = []
+        for _ in range(n_specs):
+            n = r.choice([1, 1, 2])
+            base = dict(n_callers=r.randint(3, 4), reqs=r.randint(2, 3), proxy=None, fault_ops=[], latency=r.choice(["zero", "mixed"]),
+                        think=0.0, pool_timeout=None, resp_delay=r.choice([0.0, 0.01]), retries=0, connect_fail=0.0,
+                        behaviours=["read", "read", "head-only", "partial", "post"], server_modes=False, early=False,
+                        max_body=5000, proto=r.choice(["h1", "h1tls"]), n_origins=n + 2, max_connections=n,
+                        max_keepalive=r.choice([0, 1, None]), keepalive_expiry=None)
+            spec = gen_spec(r, "sync", **base)
+            spec.pop("pool_kw", None)
+            specs.append(spec)
+        scheds = []
+        for j in range(n_scheds):
+            if j % 2 == 0:
+                scheds.append({"strategy": "random", "p": r.choice([0.02, 0.1, 0.3]), "seed": r.randrange(1 << 30)})
+            else:
+                scheds.append({"strategy": "pct", "depth": r.choice([1, 2, 3]), "seed": r.randrange(1 << 30)})
+        cases.append({"threads": True, "specs": specs, "scheds": scheds, "seed": r.randrange(1 << 30)})
     return cases
